@@ -318,6 +318,9 @@ def run(chk, b, tier):
     chk.cov["cli_tick_frames_observed"] = ticks
     if ticks == 0:
         chk.inconc("no non-final progress frame was ever observed at CLI level")
+    # the counts a caller-supplied meter receives (library use) while its callbacks pause the calling goroutines
+    from ._camp import api_delay_stage
+    api_delay_stage(chk, b, [], "C18", 4 if tier == "quick" else 80, phase_totals=True)
     chk.cov["rule"] = ("API (-race build): the real meter.NewProgressMeter with a recording writer; 3-40 phases with unique labels, "
                        "seeded increment counts and micro-delays, zero/tiny gaps between Done and the next Start, periods 1us-5ms, "
                        "GOMAXPROCS 1-16, settling wait of 25 periods. Monitors: each write is one complete frame; counts never "
